@@ -87,6 +87,21 @@ def run(run, replay=None):
             cases.append(observe(cid, data, nl))
             cid += 1
             run.count((name, data), nontrivial=True)
+    # large inputs whose newline straddles a power-of-two offset (block-wise implementations)
+    big = 0
+    for name in (('NL_CRLF', 'NL_LF16LE', 'NL_CRLF16BE') if quick else list(NEWLINES)):
+        nl = NEWLINES[name]
+        for size in ((4096, 16384) if quick else (4096, 8192, 16384, 65536)):
+            for back in range(1, len(nl)):
+                data = b'x' * (size - back) + nl + b'tail' + nl
+                cases.append(observe(cid, data, nl))
+                cid += 1
+                big += 1
+                run.count((name, 'straddle', size, back), nontrivial=True)
+            data = b'q' * (size - len(nl)) + nl + nl + b'z'
+            cases.append(observe(cid, data, nl))
+            cid += 1
+    run.notes['large_inputs'] = big
     run.sample({'newline': 'NL_CRLF16LE', 'data': list(cases[len(cases) // 2]['data']),
                 'keep_ends': cases[len(cases) // 2]['keep']})
     run.sample({'data': list(cases[7]['data']), 'newline': cases[7]['nl'], 'keep_ends': cases[7]['keep'],
